@@ -123,6 +123,10 @@ class Enter(FnSpec):
                 F.new.s_has(pc_, F.t("self")),
                 z3.ForAll([v], z3.Implies(v != F.t("self"), F.new.s_has(pc_, v) == F.old.s_has(pc_, v)), patterns=[F.new.s_has(pc_, v)])))),
             ("other-states-untouched", z3.ForAll([x], z3.Implies(x != c, F.same_at("fld:_state", x)), patterns=[z3.Select(F.new.h("fld:_state"), x)])),
+            ("other-contexts-stacks-untouched", z3.And(
+                *[z3.ForAll([x], z3.Implies(x != c, F.same_at(cmp_, x)), patterns=[z3.Select(F.new.h(cmp_), x)]) for cmp_ in ("fld:_exit_stack", "fld:_task_group")],
+                *[z3.ForAll([x], z3.Implies(z3.And(0 <= x, x < F.old.alloc), F.same_at(cmp_, x)), patterns=[z3.Select(F.new.h(cmp_), x)])
+                  for cmp_ in ("g:xs_len", "g:xs_item", "g:xs_owner", "g:tg_active")])),
             ("other-child-sets-untouched", z3.ForAll([x], z3.Implies(z3.And(0 <= x, x < F.old.alloc, z3.Or(par == VNone, x != pc_)), F.same_at("s_has", x)),
                                                      patterns=[z3.Select(F.new.h("s_has"), x)])),
         ]
@@ -134,6 +138,9 @@ class Enter(FnSpec):
             ("state-unchanged-or-rolled-back", state_of(F.new, c) == state_of(F.old, c)),
             ("current-context-unchanged", F.new.h("g:curctx") == F.old.h("g:curctx")),
             ("child-sets-unchanged", unchanged_on_old(F, ("s_has",))),
+            ("nothing-else-touched", z3.And(unchanged_on_old(F, ("g:xs_len", "g:xs_item", "g:xs_owner", "g:tg_active", "fld:_exit_stack", "fld:_task_group")),
+                                            z3.ForAll([z3.Const("x!enr", I)], z3.Implies(z3.Const("x!enr", I) != c, F.same_at("fld:_state", z3.Const("x!enr", I))),
+                                                      patterns=[z3.Select(F.new.h("fld:_state"), z3.Const("x!enr", I))]))),
         ]
 
 
@@ -146,6 +153,7 @@ class Exit(FnSpec):
     modifies = "rely"
     suspends = True
     uses_invariants = ("I-stk:exit-stack-as-pushed-by-aenter",)
+    changes_env = ("A-CV:current-context-is-per-task-and-restored-by-callees",)
 
     def requires(self, F):
         c = F.addr("self")
@@ -229,5 +237,30 @@ def register(reg):
                            ("g:ctx_init", "fld:_state", "fld:_exit_stack", "fld:_task_group", "g:xs_len", "g:xs_item")))
     reg.assumptions_text["A-TD2"] = ("no task registers a teardown callback on a root context in the window between the end of its "
                                      "teardown loop and the moment it is marked closed (only reachable when a task outlives the teardown)")
+    def with_ctx(old, new, c):
+        """A-WITH: while this activation is inside `async with ctx`, nobody else leaves ctx: it stays open, its exit stack and
+        its registration with the parent are untouched"""
+        s = stack_of(old, c)
+        par = old.fld("_parent", c)
+        return z3.And(state_of(new, c) == state_of(old, c), z3.Select(new.g("g:ctx_init"), c) == z3.Select(old.g("g:ctx_init"), c),
+                      new.fld("_exit_stack", c) == old.fld("_exit_stack", c), new.fld("_parent", c) == par,
+                      new.fld("_task_group", c) == old.fld("_task_group", c),
+                      new.fld("_child_contexts", c) == old.fld("_child_contexts", c),
+                      xs_len(new, s) == xs_len(old, s), z3.Select(new.g("g:xs_item"), s) == z3.Select(old.g("g:xs_item"), s),
+                      z3.Select(new.g("g:xs_owner"), s) == z3.Select(old.g("g:xs_owner"), s),
+                      z3.Implies(par != VNone, z3.And(new.fld("_child_contexts", Val.a(par)) == old.fld("_child_contexts", Val.a(par)),
+                                                      new.s_has(children_of(old, Val.a(par)), vref(c)) == old.s_has(children_of(old, Val.a(par)), vref(c)))))
+    reg.with_rely["Context"] = with_ctx
+    reg.with_rely["ComponentContext"] = with_ctx
+    reg.assumptions_text["A-WITH"] = ("with-statement protocol: a context entered by `async with` in this task is left only by this task: while inside "
+                                      "the block it stays open and its exit stack / parent registration are not touched by anybody else")
+
+    def i_cur(H):
+        """I-cur: the current context of a task is None or an initialised context (a ComponentContext only once fully constructed)"""
+        cur = H.h("g:curctx")
+        a = Val.a(cur)
+        return z3.Or(cur == VNone, z3.And(Val.is_ref(cur), is_ctx(H, a),
+                                          z3.Implies(subcls(H.fld("__class__", a), con("ComponentContext")), z3.Select(H.g("g:cc_init"), a))))
+    reg.invariants.append(("I-cur:current-context-is-initialised", i_cur, ("g:curctx", "g:ctx_init", "g:cc_init", "fld:__class__")))
     for s in (CurrentContext, Enter, Exit):
         reg.add(s)
